@@ -1,5 +1,6 @@
 (** C20 — regular-expression matching agrees with SRFI 115: property theorems only. *)
 From ChibiV Require Import C20.Re C20.Proofs C20.FoldIdem C20.SubsNest.
+From ChibiV Require Import C20.Nfa C20.NfaOrd C20.NfaCount C20.NfaBounded.
 
 (** the derivative of a core expression denotes the left quotient of its language *)
 Theorem deriv_correct : forall r p c s n, LR (deriv p c r) (Some c) s n <-> LR r p (c :: s) n.
@@ -107,3 +108,52 @@ Print Assumptions merge_preference_leftmost_longest.
 Theorem fold_idempotent : forall c, fold (fold c) = fold c.
 Proof. exact fold_idem. Qed.
 Print Assumptions fold_idempotent.
+
+(* ------------------------------------------------------------------------------------------ *)
+(** round 3: the NFA engine of regexp.scm inside the model (C20/Nfa.v: [compile_top] mirrors regexp / ->rx,
+    [run] mirrors regexp-run-offsets over regexp-advance! / posse-advance!) *)
+
+(** rx-num-save-indexes of the compiled regexp is two slots per submatch the SPEC syntax counts, plus the whole match:
+    the match vector has exactly one pair per [$] that [check_spans] expects (all SREs) *)
+Theorem nfa_save_slots_match_submatch_count : forall x, n_nsave (compile_top x) = 2 * S (count_subs (to_sre false x)).
+Proof. exact compile_top_nsave. Qed.
+Print Assumptions nfa_save_slots_match_submatch_count.
+
+(** the snapshot-keeping loop the tie compares step by step is the loop: its last snapshot is the loop's result *)
+Theorem nfa_trace_ends_in_result : forall search N s k i s1 acc,
+  match loop_tr search N s k i s1 acc, loop search N s k i s1 acc with
+  | Some tr, Some (p, a) => tr <> [] /\ exists j, last tr (0, [], None) = (j, p, a)
+  | None, None => True
+  | _, _ => False
+  end.
+Proof. exact loop_tr_last. Qed.
+Print Assumptions nfa_trace_ends_in_result.
+
+(** _partial: the fragment is the finite domain [small_xsres] x [small_strings] of C20/NfaBounded.v (870 SREs: every SRE
+    of depth <= 1 over 15 atoms, 15 unary and 2 binary forms, and the family "loop around a submatch around an operator";
+    44 strings: all of length <= 3 over {a, b, newline} and 4 with upper-case letters), decided by computation.
+    Full statements: for all x s, with no domain hypothesis. *)
+Theorem nfa_search_iff_substring_partial : forall x s, In x small_xsres -> In s small_strings ->
+  (nfa_search x s = true <-> exists i j, in_lang false (to_sre false x) s i j).
+Proof. exact nfa_search_iff_substring_small. Qed.
+Print Assumptions nfa_search_iff_substring_partial.
+
+Theorem nfa_search_span_leftmost_longest_partial : forall x s, In x small_xsres -> In s small_strings ->
+  has_nongreedy (to_sre false x) = false ->
+  match span0 (nfa_spans true x s) with
+  | Some (i, j) => in_lang false (to_sre false x) s i j /\
+                   forall i' j', in_lang false (to_sre false x) s i' j' -> (i < i')%nat \/ (i = i' /\ (j' <= j)%nat)
+  | None => forall i j, ~ in_lang false (to_sre false x) s i j
+  end.
+Proof. exact nfa_search_span_leftmost_longest_small. Qed.
+Print Assumptions nfa_search_span_leftmost_longest_partial.
+
+Theorem nfa_submatch_spans_valid_partial : forall x s b spans, In x small_xsres -> In s small_strings ->
+  nfa_spans b x s = Some spans -> check_spans (to_sre false x) s spans = true.
+Proof. exact nfa_submatch_spans_valid_small. Qed.
+Print Assumptions nfa_submatch_spans_valid_partial.
+
+Theorem nfa_accepts_iff_language_small_domain : forall x s, In x small_xsres -> In s small_strings ->
+  (nfa_matches x s = true <-> L false (to_sre false x) None s None).
+Proof. exact nfa_accepts_iff_language_small. Qed.
+Print Assumptions nfa_accepts_iff_language_small_domain.
